@@ -134,7 +134,7 @@ class UTPM(Ring, RawAlgorithmsMixIn):
         if not isinstance(sl, tuple):
             sl = (sl,)
         tmp = self.data.__getitem__((slice(None),slice(None)) + sl)
-        return self.__class__(tmp)
+        return UTPM(tmp)
 
     def __setitem__(self, sl, rhs):
         if not isinstance(sl, tuple):
@@ -244,7 +244,7 @@ class UTPM(Ring, RawAlgorithmsMixIn):
 
         tmp = self.data.__getitem__(sl)
         tmp = tmp.reshape(shp)
-        return self.__class__(tmp)
+        return UTPM(tmp)
 
     @classmethod
     def pb_coeff_op(cls, ybar, x, sl, shp, out = None):
@@ -393,7 +393,7 @@ class UTPM(Ring, RawAlgorithmsMixIn):
         dtype = numpy.promote_types(x_data.dtype, y_data.dtype)
         z_data = numpy.zeros(x_data.shape, dtype=dtype)
         self._mul(x_data, y_data, z_data)
-        return self.__class__(z_data)
+        return UTPM(z_data)
 
     def __truediv__(self,rhs):
         if numpy.isscalar(rhs):
@@ -420,7 +420,7 @@ class UTPM(Ring, RawAlgorithmsMixIn):
         dtype = numpy.promote_types(x_data.dtype, y_data.dtype)
         z_data = numpy.zeros(x_data.shape, dtype=dtype)
         self._truediv(x_data, y_data, z_data)
-        return self.__class__(z_data)
+        return UTPM(z_data)
 
     def __floordiv__(self, rhs):
         """
@@ -433,7 +433,7 @@ class UTPM(Ring, RawAlgorithmsMixIn):
         dtype = numpy.promote_types(x_data.dtype, y_data.dtype)
         z_data = numpy.zeros(x_data.shape, dtype=dtype)
         self._floordiv(x_data, y_data, z_data)
-        return self.__class__(z_data)
+        return UTPM(z_data)
 
     def __pow__(self,r):
         if isinstance(r, UTPM):
@@ -442,7 +442,7 @@ class UTPM(Ring, RawAlgorithmsMixIn):
             x_data = self.data
             y_data = numpy.zeros(x_data.shape, dtype=numpy.result_type(x_data.dtype, r))
             self._pow_real(x_data, r, y_data)
-            return self.__class__(y_data)
+            return UTPM(y_data)
 
     def __rpow__(self,r):
         # take the logarithm of the base in (at least) double precision: numpy.log of an
@@ -1662,12 +1662,12 @@ class UTPM(Ring, RawAlgorithmsMixIn):
         return self.__class__(numpy.zeros((D,P) + shape))
 
     def zeros_like(self):
-        return self.__class__(numpy.zeros_like(self.data))
+        return UTPM(numpy.zeros_like(self.data))
 
     def ones_like(self):
         data = numpy.zeros_like(self.data)
         data[0,...] = 1.
-        return self.__class__(data)
+        return UTPM(data)
 
     def shift(self, s, out = None):
         """
